@@ -320,6 +320,9 @@ func c11Forms() []c11form {
 }
 
 func runC11(c *core.Ctx) {
+	if c.Shard == 0 {
+		c11KeptObjects(c)
+	}
 	positions := refPositions()
 	idx := 0
 	for _, pos := range positions {
